@@ -291,6 +291,64 @@ pub fn run(tier: Tier) -> i32 {
         }
     }
 
+    // call histories of length 2: marginalize(A, axes a) directly followed by marginalize(B, axes b) on one thread
+    {
+        let mut calls: Vec<(Vec<usize>, Vec<usize>)> = Vec::new();
+        for sh in shapes(4, 1, 3, 36) {
+            let d = sh.len();
+            if d < 2 {
+                continue;
+            }
+            for a in 0..d {
+                calls.push((sh.clone(), vec![a]));
+            }
+            if d >= 3 {
+                calls.push((sh.clone(), vec![d - 1, 0]));
+            }
+        }
+        let res = par_map(calls.len(), |i| {
+            let (a_shape, a_axes) = &calls[i];
+            let a = scs_from_ref(&labeled(a_shape, "lin"));
+            let a_ax: Vec<Axis> = a_axes.iter().map(|&x| Axis(x)).collect();
+            let mut viols: Vec<Viol> = Vec::new();
+            for (b_shape, b_axes) in &calls {
+                let bx = labeled(b_shape, "sq");
+                let b = scs_from_ref(&bx);
+                let b_ax: Vec<Axis> = b_axes.iter().map(|&x| Axis(x)).collect();
+                let expect = bx.marginalize(b_axes);
+                let got = catch(|| {
+                    let _ = a.marginalize(&a_ax);
+                    b.marginalize(&b_ax).map(|s| ref_from_spectrum(&s)).map_err(|e| e.to_string())
+                });
+                match got {
+                    Ok(Ok(g)) if g == expect => {}
+                    other => {
+                        if viols.len() < 2 {
+                            viols.push((
+                                "C04|lib|marginalize-depends-on-previous-call".into(),
+                                format!("marginalize({b_axes:?}) of shape {b_shape:?} directly after marginalize({a_axes:?}) of shape {a_shape:?} on the same thread gives {other:?}, expected {:?}", expect.data),
+                                case_j(b_shape, b_axes, "sq"),
+                            ));
+                        }
+                    }
+                }
+            }
+            viols
+        });
+        for v in res.into_iter().flatten() {
+            rep.violation(v.0, v.1, v.2);
+        }
+        let n = (calls.len() * calls.len()) as u64;
+        rep.part(Part {
+            name: "lib: marginalize after marginalize (call histories of length 2)".into(),
+            evaluations: n,
+            nontrivial: n,
+            note: format!("every ordered pair of {} (shape, axes) calls on shapes with <=4 axes, lengths <=3, <=36 cells, run back to back on one thread", calls.len()),
+            exhaustive: true,
+            extra: vec![],
+        });
+    }
+
     // error clause
     let err_shapes: Vec<Vec<usize>> = (1..=5).map(|d| [2usize, 3, 2, 1, 2][..d].to_vec()).collect();
     let res = par_each(&err_shapes, |s| check_errors(s));
